@@ -14,8 +14,8 @@ Definition all_bel : list bel :=
   flat_map (fun a => flat_map (fun b => flat_map (fun c => flat_map (fun d =>
     map (fun e => {| in_txn := a; in_copy := b; need_set := c; need_prep := d; bad := e |}) all_bool)
     all_bool) all_bool) all_bool) all_bool.
-Definition all_sql := [Begin; Commit; Rollback; Select; SetG; Prepare; Fail; CopyIn].
-Definition all_rtag := [RBegin; RCommit; RRollback; RSelect; RSet; RPrepare; RError; RCopyIn; ROther].
+Definition all_sql := [Begin; Commit; Rollback; Select; SetG; Prepare; Fail; CopyIn; DeallocAll].
+Definition all_rtag := [RBegin; RCommit; RRollback; RSelect; RSet; RPrepare; RError; RCopyIn; RDealloc; ROther].
 
 Lemma in_all_bool x : In x all_bool. Proof. destruct x; cbn; auto. Qed.
 Lemma in_all_tx x : In x all_tx. Proof. destruct x; cbn; auto. Qed.
